@@ -76,6 +76,19 @@ def run(ctx):
             v["row"] = {k: r[k] for k in ("hv", "flags") if k in r}
     ctx.violations += cbad
     total += ct; distinct += cd
+    # the boundary taken from the Content-Type value: spec/MpartBoundary.tla
+    bmc = vlib.tlc_or_die(ctx, "MpartBoundaryMC", "MpartBoundaryMC.cfg", workers=vlib.NCPU, timeout=1800, xmx="8g")
+    for inv in bmc.violated:
+        ctx.violations.append({"clause": "Model:" + inv, "what": "MpartBoundary reference violates its own meta-property: " + bmc.out[-1200:], "sites": []})
+    bshards = [["exh", ca, i, n] for i in range(n)] + [["rand", ctx.seed * 29 + i, 1500 if q else 20000] for i in range(4)]
+    bt, bd, bbad, _ = vlib.pattern_f(ctx, "san", "fn_mpbd", bshards, "MpartBoundaryRows", "MpartBoundaryRows.cfg", xmx="5g")
+    for v in bbad:
+        r = v.get("row") or {}
+        if isinstance(r, dict) and "ct" in r:
+            v["what"] = "%s: Content-Type %r -> %s boundary %r flags %s" % (v["clause"], bytes(r["ct"]), r.get("rc"), r.get("boundary"), r.get("flags"))
+            v["row"] = {k: r[k] for k in ("ct", "flags") if k in r}
+    ctx.violations += bbad
+    total += bt; distinct += bd
     vac = None if len(good) >= n_docs * 0.5 and total > len(good) * 20 else "only %d well-formed documents / %d rows" % (len(good), total)
     vlib.finish(ctx, "model_checking", {
         "states": mc.distinct, "transitions": mc.generated, "traces_validated_against_impl": total,
@@ -83,7 +96,9 @@ def run(ctx):
         "rule": "documents = Multipart!Doc(i) for %d consecutive indices (0..3 parts; names incl. escaped quote / backslash / empty; with and without file name and content type; folded Content-Disposition; data of 0..3 atoms from a "
                 "14-atom near-boundary alphabet incl. CR, LF, dashes, delimiter prefixes, boundary text not at a line start, NUL, CRLFCRLF; optional preamble / epilogue; CRLF or LF structure; LWS after delimiters), minus draws whose data "
                 "would contain a real delimiter; chunkings: whole, EVERY single cut, one byte per call, 3 random multi-cuts; through the parser directly and (a third of the cuts) a full POST; distinct = (document, route, chunking)" % n_docs,
-        "content_disposition_rows": ct,
+        "content_disposition_rows": ct, "boundary_rows": bt,
+        "boundary_rule": "every Content-Type value built from <= %d atoms of 17 (three spellings of the type, boundary / Boundary / BOUNDARY, = quote BB 'a b' x'y ; , SP TAB # charset=x) + random decorated well-formed values "
+                         "(boundaries of 70 / 71 characters, browser-style boundaries, trailing parameters, second boundary): OK / DECLINED, the boundary, HBOUNDARY_INVALID / _UNUSUAL = spec/MpartBoundary.tla" % ca,
         "content_disposition_rule": "5 prefixes x every sequence of <= %d atoms from {; SP name filename nam = quote escaped-quote escaped-backslash backslash a 'x y' TAB} + random lists of whole parameters: "
                                     "name, file name, CD_SYNTAX_INVALID / CD_PARAM_REPEATED / CD_PARAM_UNKNOWN = spec/MpartCD.tla" % ca,
         "samples": [good[1], {"rendered": render(good[1]["d"]).decode("latin1")}],
